@@ -71,7 +71,7 @@ func init() {
 		Property: "C06",
 		Phase:    "API tour replayed on every backend",
 		Variants: []string{"plain", "noavx2", "purego", "force32bit"},
-		Rule: "per run: one tape-determined tour over 18 operation families (plus the operand pools) of curve/scalar, curve (Edwards, Montgomery, Ristretto, expanded points, user-built tables), x25519, ed25519 (+batch, expanded keys), ecvrf, h2c, merlin and sr25519, executed in a tape-shuffled order; " +
+		Rule: "per run: one tape-determined tour over 20 operation families (plus the operand pools) of curve/scalar, curve (Edwards, Montgomery, Ristretto, expanded points, user-built tables), x25519, ed25519 (+batch, expanded keys), ecvrf, h2c, merlin and sr25519, executed in a tape-shuffled order; " +
 			"operands are drawn from the tape as a mix of random values and boundary values: scalars {0, 1, L-1, L, L+1, kL+j, 2^252, 2^255-1, 2^k, 2^k-1, byte runs of 0x00/0xff, random reduced, random unreduced 255-bit via SetBits}, points {identity, basepoint, the 8-torsion points, basepoint multiples plus torsion, decoded random strings, sums of those}, encodings {random strings, y>=p and x=0 non-canonical forms, limb-pattern y values}, multiscalar lengths from {0,1,2,3,7,8,31,32,63,64,189,190,191,250} and rarely {500,800}, batch sizes 1..8 and occasionally ~100/~195, message/label/DST lengths at hash-block, STROBE-rate (166/332) and 255/256 seams; every entropy reader is a deterministic reader with a tape-drawn seed; " +
 			"every operation appends one event carrying a digest of its canonical output (encoded bytes, booleans, err!=nil; a recovered panic only as 'family X: panic'); non-trivial = every run (each run executes every family at least once, i.e. >= 40 distinct operation kinds; the count is asserted); " +
 			"oracle: the SHA-256 of the run's event log must be equal, index by index, across the four builds {amd64 asm + AVX2, amd64 asm with GODEBUG=cpu.avx2=off, -tags purego, -tags force32bit}; the workload itself never reports a violation",
@@ -147,6 +147,7 @@ func runC06(e *Env, r *core.Run) {
 		{"merlin", c06fMerlin, c.famMerlin},
 		{"sr25519", c06fSr, c.famSr25519},
 		{"aliased-receivers", c06fAlias, c.famAliased},
+		{"input-lengths", c06fLen, c.famLengths},
 	}
 	// tape-drawn order (exhausted tape: a fixed order); ed25519 must precede its
 	// batch family only in the sense that the batch builds its own items if none exist.
